@@ -55,3 +55,10 @@ check(
     "Hypothesis property-based testing of run(run(P)) == run(P) with real CLI runs and snapshots",
     "DESIGN.md §3 C07",
 )
+check(
+    "C03", "exploration",
+    "Round-trip oracle over generated runs: (a) every registered codemod on generated programs (contexts, CRLF/mixed EOL, BOM, tabs, form feed, no final newline); (b) generated projects with multi-trigger files and a dependency manifest (four formats x LF/CRLF/no-final-newline) under sequences of 2-4 codemods in one run. An own strict unified-diff applier (lines split on \\n only, exact hunk positions/context) folds the report's diffs in report order over the pre-run bytes and must reproduce the bytes on disk up to the final newline; every changeset must move its file; every path without a changeset is byte-identical; nothing is created or deleted.",
+    "Trusted: my diff applier (cross-checked against difflib output on the unchanged tree by the fact that the check is quiet, and by seeded mutants); report order = execution order; final newline not compared (statement's tolerance).",
+    "Hypothesis property-based testing; diff round-trip with an independent strict applier; snapshot differencing",
+    "DESIGN.md §3 C03",
+)
